@@ -25,7 +25,43 @@ func editWorld(t *rapid.T, w *World) *World {
 	n := rapid.IntRange(1, 4).Draw(t, "nedits")
 	for e := 0; e < n; e++ {
 		l := fmt.Sprintf("ed%d", e)
-		switch rapid.IntRange(0, 10).Draw(t, l+"kind") {
+		nk := 10
+		if len(b.Services)+len(b.Ingresses)+len(b.Routes) > 0 {
+			nk = 14 // worlds with an ingress stage: its objects are edited too
+		}
+		switch rapid.IntRange(0, nk).Draw(t, l+"kind") {
+		case 11: // drop an Ingress or a Route
+			if len(b.Ingresses) > 0 && (len(b.Routes) == 0 || rapid.Bool().Draw(t, l+"ingorroute")) {
+				k := rapid.IntRange(0, len(b.Ingresses)-1).Draw(t, l+"k")
+				b.Ingresses = append(b.Ingresses[:k:k], b.Ingresses[k+1:]...)
+			} else if len(b.Routes) > 0 {
+				k := rapid.IntRange(0, len(b.Routes)-1).Draw(t, l+"k")
+				b.Routes = append(b.Routes[:k:k], b.Routes[k+1:]...)
+			}
+		case 12, 13: // a Service port loses or changes its target, or goes away (the ingress-controller line CHANGES)
+			if len(b.Services) > 0 {
+				sv := &b.Services[rapid.IntRange(0, len(b.Services)-1).Draw(t, l+"k")]
+				if len(sv.Ports) > 0 {
+					pi := rapid.IntRange(0, len(sv.Ports)-1).Draw(t, l+"sp")
+					ports := append([]SvcPort{}, sv.Ports...)
+					switch rapid.IntRange(0, 2).Draw(t, l+"spedit") {
+					case 0:
+						if len(ports) > 1 {
+							ports = append(ports[:pi:pi], ports[pi+1:]...)
+						}
+					case 1:
+						ports[pi].TargetName, ports[pi].TargetNum = "", rapid.SampledFrom(svcPortPool).Draw(t, l+"sptn")
+					default:
+						ports[pi].TargetName, ports[pi].TargetNum = "", 0
+					}
+					sv.Ports = ports
+				}
+			}
+		case 14: // drop a Service
+			if len(b.Services) > 0 {
+				k := rapid.IntRange(0, len(b.Services)-1).Draw(t, l+"k")
+				b.Services = append(b.Services[:k:k], b.Services[k+1:]...)
+			}
 		case 0: // remove a policy
 			if len(b.NPs) > 0 {
 				k := rapid.IntRange(0, len(b.NPs)-1).Draw(t, l+"k")
@@ -136,6 +172,89 @@ func editWorld(t *rapid.T, w *World) *World {
 	return b
 }
 
+// genSparseDiffPair: two versions of a LOCKED-DOWN application behind Ingresses/Routes, so that every edit shows as one
+// or two diff entries instead of dozens: every namespace admits traffic from all namespaces and allows no egress, hence
+// the only connections are the {ingress-controller} lines. One version then (a) edits the ingress stage (a Service port
+// goes away or is re-targeted, an Ingress/Route or a Service is dropped: ingress lines change or disappear) and
+// (b) lets one or two workloads talk to one other workload (one or two added - or, with the versions swapped,
+// removed - lines). Diffs with a handful of entries of DIFFERENT categories are what the random edits never give.
+func genSparseDiffPair(t *rapid.T) (a, b *World) {
+	a = GenIngressWorld(t, false)
+	a.NPs, a.ANPs, a.BANP = nil, nil, nil
+	for _, ns := range a.Namespaces {
+		a.NPs = append(a.NPs, NetPol{Ns: ns.Name, Name: "lockdown", PolicyTypes: []string{"Ingress", "Egress"},
+			Ingress: []Rule{{Peers: []Peer{{NsSel: &Selector{}}}}}})
+	}
+	b = a.Clone()
+	ne := rapid.IntRange(0, 2).Draw(t, "sparseing")
+	for e := 0; e < ne; e++ {
+		l := fmt.Sprintf("sp%d", e)
+		switch rapid.IntRange(0, 3).Draw(t, l+"kind") {
+		case 0:
+			if len(b.Ingresses) > 0 {
+				k := rapid.IntRange(0, len(b.Ingresses)-1).Draw(t, l+"k")
+				b.Ingresses = append(b.Ingresses[:k:k], b.Ingresses[k+1:]...)
+			} else if len(b.Routes) > 0 {
+				k := rapid.IntRange(0, len(b.Routes)-1).Draw(t, l+"k")
+				b.Routes = append(b.Routes[:k:k], b.Routes[k+1:]...)
+			}
+		case 1, 2:
+			if len(b.Services) > 0 {
+				sv := &b.Services[rapid.IntRange(0, len(b.Services)-1).Draw(t, l+"k")]
+				if len(sv.Ports) > 0 {
+					pi := rapid.IntRange(0, len(sv.Ports)-1).Draw(t, l+"sp")
+					ports := append([]SvcPort{}, sv.Ports...)
+					if len(ports) > 1 && rapid.Bool().Draw(t, l+"drop") {
+						ports = append(ports[:pi:pi], ports[pi+1:]...)
+					} else {
+						ports[pi].TargetName, ports[pi].TargetNum = "", rapid.SampledFrom(svcPortPool).Draw(t, l+"tn")
+					}
+					sv.Ports = ports
+				}
+			}
+		default:
+			if len(b.Services) > 0 {
+				k := rapid.IntRange(0, len(b.Services)-1).Draw(t, l+"k")
+				b.Services = append(b.Services[:k:k], b.Services[k+1:]...)
+			}
+		}
+	}
+	if len(b.Workloads) >= 2 {
+		nt := rapid.IntRange(1, 2).Draw(t, "sparsetalk")
+		for e := 0; e < nt; e++ {
+			l := fmt.Sprintf("talk%d", e)
+			i := rapid.IntRange(0, len(b.Workloads)-1).Draw(t, l+"src")
+			j := rapid.IntRange(0, len(b.Workloads)-2).Draw(t, l+"dst")
+			if j >= i {
+				j++
+			}
+			src, dst := &b.Workloads[i], &b.Workloads[j]
+			if src.Labels == nil {
+				src.Labels = map[string]string{}
+			}
+			src.Labels["talker"] = fmt.Sprintf("t%d", e)
+			for k := range a.Workloads {
+				if a.Workloads[k].Ns == src.Ns && a.Workloads[k].Name == src.Name && a.Workloads[k].Kind == src.Kind {
+					if a.Workloads[k].Labels == nil {
+						a.Workloads[k].Labels = map[string]string{}
+					}
+					a.Workloads[k].Labels["talker"] = src.Labels["talker"] // the label is in both versions, the rule in one
+				}
+			}
+			r := Rule{Peers: []Peer{{NsSel: &Selector{}, PodSel: &Selector{MatchLabels: copyMapS(dst.Labels)}}}}
+			if rapid.Bool().Draw(t, l+"port") {
+				r.Ports = []PPort{{Proto: "TCP", PortNum: rapid.SampledFrom(svcPortPool).Draw(t, l+"p")}}
+			}
+			b.NPs = append(b.NPs, NetPol{Ns: src.Ns, Name: "talk-" + src.Labels["talker"], PodSel: Selector{MatchLabels: map[string]string{"talker": src.Labels["talker"]}},
+				PolicyTypes: []string{"Egress"}, Egress: []Rule{r}})
+		}
+	}
+	if rapid.Bool().Draw(t, "sparseswap") {
+		a, b = b, a
+	}
+	return a, b
+}
+
 func genC04(t *rapid.T) *C04Case {
 	var a *World
 	switch rapid.IntRange(0, 5).Draw(t, "worldkind") {
@@ -179,6 +298,10 @@ func genC04(t *rapid.T) *C04Case {
 		}
 	}
 	c := &C04Case{A: a, StopOnError: rapid.IntRange(0, 3).Draw(t, "stoponerr") == 0}
+	if rapid.IntRange(0, 5).Draw(t, "sparse") == 0 {
+		c.A, c.B = genSparseDiffPair(t)
+		return c
+	}
 	if rapid.IntRange(0, 3).Draw(t, "independent") == 0 {
 		c.B = GenWorld(t, GenCfg{NoNamedRisk: true})
 	} else {
